@@ -8,6 +8,10 @@ props = [json.loads(l) for l in open(os.path.join(V, "properties.jsonl"))]
 DIFF = "bounded-exhaustive grammar/derivation enumeration executed on the real code, compared point by point with a reference interpreter"
 META = "bounded-exhaustive enumeration of identity-schema instantiations x documents executed on the real code; metamorphic oracle (implementation against itself)"
 claimed = {
+ "C04": ("bounded-exhaustive enumeration of byte strings, whitespace placements, single-token edits and literal bodies given to the real Compile; differential against the reference recogniser, accepted strings evaluated against the reference on distinguishing documents",
+         "all byte strings up to length 4 (5 thorough) over a 31-symbol alphabet, every token-gap whitespace placement and the complete single-token-edit neighbourhood of ~1500 valid expressions, and all sequences of literal-body fragments in the four quote syntaxes: accept/reject must match the reference grammar and accepted strings must mean what the reference says",
+         "trusts the reference lexer/parser (appendix B), which abstains (UNSURE, counted) on whitespace inside [*] / .* / before a call parenthesis, let/in as identifiers, lone surrogates and control characters in quoted identifiers",
+         "4/C04"),
  "C16": ("bounded-exhaustive enumeration of strings x literal spellings executed on the real code; round-trip oracle (the string itself)",
          "every string up to the stated length over a 16-symbol alphabet of quotes, escapes, control characters and 1-4 byte code points is written in every spelling the grammar allows (raw string, JSON literal, quoted identifier; 11 spellings) and must evaluate to itself / select the member of that name; JSON values between backticks must keep their number text",
          "trusts the 40-line escaping routines of the harness, which follow the grammar's escape rules",
